@@ -44,11 +44,10 @@ def playback(pid, rec, scratch):
     with open(local, "a") as f:
         f.write("\n" + test + "\n")
     results = {}
-    for profile in ("dev", "release"):
-        cmd = ["cargo", "kani", "playback", "-Z", "concrete-playback"]
-        if profile == "release":
-            cmd += ["--release"]
-        cmd += ["--", tname]
+    # (Kani 0.68's `playback` subcommand has no --release: the harness body runs natively in the dev
+    #  profile; filesystem scenarios are replayed in both profiles by scenario.py)
+    for profile in ("dev",):
+        cmd = ["cargo", "kani", "playback", "-Z", "concrete-playback", "--", tname]
         p = subprocess.run(cmd, cwd=scratch.dir, env=core.ENV, stdout=subprocess.PIPE,
                            stderr=subprocess.STDOUT, timeout=1200)
         out = p.stdout.decode(errors="replace")
